@@ -207,6 +207,22 @@ def run(ctx):
                 continue
             else:
                 res.bad("C16-R2", key, n.get("loc"), "%s is modified by %s in %s: not one of push_back-if-absent / swap-and-pop / clear" % (vec.split("::")[-1], kind, f.name))
+        # ---- R1b every element access uses an index computed by this call's lookup (or size()-1 inside the removal swap)
+        for f in fb.all_functions():
+            if f.rec != L["cls"] or f.raw.get("const"):
+                continue
+            for c in f.calls():
+                if (c.get("callee") or {}).get("nm") == "operator[]" and strip_all_casts(c.get("obj", {})).get("field") == vec and c.get("args"):
+                    idx = c["args"][0]
+                    d, calls = depends(f, idx)
+                    from_lookup = look.name in calls
+                    last = "size" in canon(idx) and vec.split("::")[-1] in canon(idx)
+                    is_param = any(strip_all_casts(idx).get("decl") == p["decl"] for p in f.params)
+                    member_dep = sorted(x for x in d if x.startswith(L["cls"] + "::") and x != vec)
+                    res.check((from_lookup or last or is_param) and not member_dep, "C16-R1", "%s:%s:index" % (short, f.name.split("::")[-1]), c.get("loc"),
+                              "element index comes from this call's lookup" if from_lookup else "index is size()-1 / the caller's index",
+                              "%s accesses %s[%s] with an index that does not come from a lookup in this call%s: after a removal the slot may hold another "
+                              "id's entry" % (f.name, vec.split("::")[-1], canon(idx)[:60], (" (depends on member %s)" % member_dep) if member_dep else ""))
         # ---- R4 found => replaced
         ups = [c for c in upd.calls() if (callee_name(c) or "") == L["elem"] + "::update" and "obj" in c]
         found_ok = False
